@@ -310,7 +310,7 @@ def add_connection(u):
            ensures=[
                C('C06.acct.new_registering.window_starts_at_20000', 'r.window == 20000'),
                C('C02.acct.new_registering.nothing_in_flight', 'r.in_flight_packets == 0 && r.packet_log@.len() == 0 && r.highest_acked_seq == i32::MIN'),
-               'r.wf()', '!r.connected', 'r.phase is Registering', 'r.conn_id == conn_id',
+               'r.wf()', '!r.connected', 'r.phase is Registering', 'r.conn_id == conn_id', 'r.label == label',
                'r.last_ack_or_rtt_sample_ms == 0', 'r.stall_latched_since_ms == 0', '!r.silence_pulled', '!r.stall_gated',
                'r.batch_sender.queue.len() == 0',
            ]))
